@@ -67,6 +67,9 @@ def run(ctx):
                     "spec_outcome": [c["st"], c["err"]]})
     ctx.extra["structural_fault_cases"] = len(cases)
     typed_anytype_faults(ctx)
+    from .. import dictshape_bind
+
+    dictshape_bind.run_matrix(ctx, "C15")
     byte_level(ctx)
     json_faults(ctx, cases)
 
